@@ -2,13 +2,48 @@
     Proved here: the guarded panic sites are unreachable (nil regexp after a
     case-rule change), success never drops a method, every run of the model
     terminates by construction (structural recursion / fuel). The complete
-    no-panic statement over the whole pipeline is tied to the code by the
-    malformed-input correspondence stream, where the model predicts the
-    implementation's outcome class (ok / error / panic) case by case. *)
+    no-panic statement over the whole pipeline is [C14_no_panic]; it is tied to
+    the code by the malformed-input correspondence stream, where the model
+    predicts the implementation's outcome class (ok / error / panic) case by
+    case, and its hypothesis [dump_wf_b] is reported by the model with every run
+    and required to be true by the harness. *)
 From Coq Require Import String.
 From Cvg Require Import Base GoTypes Re Unicode Matcher Dump Options Front Builder Gen Pipeline.
-From Cvg.proofs Require Import BuilderProofs FrontProofs.
+From Cvg.proofs Require Import BuilderProofs FrontProofs NoPanicProofs.
+From Cvg.gen Require FixtureDumps.
 Open Scope N_scope.
+
+(** The whole pipeline — findConvergenEntries, every notation parser, parseMethods,
+    resolveConverters, CreateFunction with structToStruct at any depth, castNode,
+    NewTypecast, sliceToSlice, buildManipulator — reaches no panic site, for every
+    dump whose signatures carry one name slot per parameter and result (what
+    go/types always provides): the run ends in Ok, Err, Fuel or Unsup.
+    Proving this found two crashes of the pinned code (NewTypecast on a
+    predeclared named type; the model's site is gone with the repair). *)
+Theorem C14_no_panic :
+  forall d, dump_wf_b d = true -> is_panic (po_result (run_pipeline d)) = false.
+Proof. exact run_pipeline_never_panics. Qed.
+Print Assumptions C14_no_panic.
+
+(** Non-vacuity, on the repository's own fixtures (regenerated from /repo on every
+    run): each decodes, satisfies the hypothesis, and the model runs it to Ok with
+    at least one function — except the one without converter interface, which
+    ends in Err. *)
+Definition fixture_status (sx : sexp) : N * N :=
+  match dec_dump sx with
+  | None => (9, 0)
+  | Some d =>
+      if negb (dump_wf_b d) then (8, 0) else
+      match po_result (run_pipeline d) with
+      | Ok bs => (1, N.of_nat (List.length (List.concat (List.map b_funcs bs))))
+      | Err _ => (2, 0) | Panic _ => (3, 0) | Fuel => (4, 0) | Unsup _ => (5, 0)
+      end
+  end.
+Example C14_fixtures_meet_hypothesis :
+  forallb (fun p => let '(k, n) := fixture_status (snd p) in ((k =? 1) && (1 <=? n)) || (k =? 2)) FixtureDumps.fixtures = true
+  /\ existsb (fun p => fst (fixture_status (snd p)) =? 2) FixtureDumps.fixtures = true
+  /\ (10 <=? N.of_nat (List.length FixtureDumps.fixtures)) = true.
+Proof. vm_compute. repeat split. Qed.
 
 (** PatternMatcher.Match never meets a nil regexp: over any list of matchers
     made by NewPatternMatcher, for any path and any case rule. *)
